@@ -4,8 +4,10 @@
 package cstate
 
 // ---------------------------------------------------------------- C14: loading a saved state
-//@ trusted func StateFromProto(pb *kstate.State) (r *LatestBlockState, err error)
-//@   ensures err == nil ==> fresh(r)
+//@ func StateFromProto(pb *kstate.State) (r *LatestBlockState, err error)
+//@   for C14
+//@   ensures pb == nil ==> err != nil
+//@   ensures [inlineFieldsRestored] err == nil ==> fresh(r) && r.ChainID == pb.ChainID && r.InitialHeight == pb.InitialHeight
 
 // Every field of the loaded state comes from the record that stores it: block id, time and tx count
 // from the block meta of that height, the application hash from the app-hash record of that height,
@@ -68,8 +70,14 @@ package cstate
 //@     invariant rawdb.cstateAt(s.db, 0) != nil ==> !has(valInfosCache, common.hashOfBytes(content(rawdb.cstateAt(s.db, 0).LastValidatorsInfoHash))) && !has(valInfosCache, common.hashOfBytes(content(rawdb.cstateAt(s.db, 0).ValidatorsInfoHash))) && !has(valInfosCache, common.hashOfBytes(content(rawdb.cstateAt(s.db, 0).NextValidatorsInfoHash)))
 
 // ---------------------------------------------------------------- C14: what Save leaves in the store
-//@ trusted func (state *LatestBlockState) ToProto() (r *kstate.State, err error)
-//@   ensures err == nil ==> fresh(r)
+// The per-height record: chain id and initial height inline, and for each of the three validator sets
+// the key (Hash) of ITS OWN record.
+//@ func (state *LatestBlockState) ToProto() (r *kstate.State, err error)
+//@   for C14
+//@   requires state != nil ==> state.Validators != nil && state.NextValidators != nil && (state.LastBlockHeight != 0 ==> state.LastValidators != nil)
+//@   ensures state == nil ==> err != nil
+//@   ensures [inlineFieldsCopied] err == nil ==> fresh(r) && r.ChainID == state.ChainID && r.InitialHeight == state.InitialHeight
+//@   ensures [eachSetPointsToItsOwnRecord] err == nil ==> content(r.ValidatorsInfoHash) == content(types.valsKey(state.Validators)) && content(r.NextValidatorsInfoHash) == content(types.valsKey(state.NextValidators)) && (state.LastBlockHeight != 0 ==> content(r.LastValidatorsInfoHash) == content(types.valsKey(state.LastValidators)))
 //@ trusted func saveConsensusParamsInfo(db kaidb.KeyValueWriter, lastHeightChanged uint64, params kproto.ConsensusParams) (r common.Hash)
 
 // One record: keyed by the set's Hash(), holding every member's priority.
